@@ -1,0 +1,13 @@
+//go:build verif
+
+package afm
+
+// Machine-checked contracts for package afm (read by /verif/govc only;
+// never compiled into a normal build).
+
+//@ sweep C01 read.go
+
+//@ func Read
+//@ requires fd != nil
+//@ loop 2 invariant res != nil && res.Glyphs != nil && len(res.Encoding) == 256
+//@ loop 3 invariant res != nil && res.Glyphs != nil && len(res.Encoding) == 256 && ligTmp != nil
